@@ -71,6 +71,11 @@ def table(ctx):
             faults[('main', 0)] = 'discard'
         elif discard == 'after':
             faults[('main', 2)] = 'discard'
+        if discard == 'after' and (idx % 3 == 0):
+            faults[('main', 1)] = faults.get(('main', 1)) or 'disable'    # recording switched off mid-flight, THEN the explicit discard
+            if faults[('main', 1)] != 'disable':
+                faults[('main', 0)] = 'disable'
+            ctx.count('table_rows_with_kill_switch_before_discard')
         if outcome == 'raise':
             faults[('main', 3)] = 'raise_user'
         elif outcome == 'interrupt':
@@ -231,6 +236,47 @@ def same_class_histories(ctx):
                         break
 
 
+def inherited_operation(ctx):
+    """One decorated operation function shared by several classes through inheritance, each class with its own recording
+    parameters: the policy of the class the operation RUNS ON decides, in whatever order the classes are invoked."""
+    from playback.tape_recorder import TapeRecorder, RecordingParameters
+    from vlib import genclasses
+    from vlib.programs import Built, World
+    variants = {'base': None, 'quiet': dict(skipped=True), 'never': dict(sampling_rate=0.0), 'always': dict(sampling_rate=1.0)}
+    expect = {'base': 'save', 'quiet': 'none', 'never': 'abort', 'always': 'save'}
+    for order in itertools.permutations(sorted(variants), 3):
+        for register_late in (False, True):
+            with open_box('memory') as box:
+                spy = SpyCassette(box.cassette)
+                rec = TapeRecorder(spy)
+                rec._random = SpyRandom(1)
+                rec.enable_recording()
+                b = Built(dict(table_prog('return'), uid=924000), rec, World(5, raise_rate=0.0))
+                classes = {'base': b.cls}
+                for name in ('quiet', 'never', 'always'):
+                    classes[name] = genclasses.register(type('Inh%s%d' % (name, 924000), (b.cls,), {}))
+                    if not register_late:
+                        rec.recording_params(RecordingParameters(**variants[name]))(classes[name])
+                base_cls = b.cls
+                for k, name in enumerate(order * 2):
+                    if register_late and name != 'base' and k < 3:
+                        rec.recording_params(RecordingParameters(**variants[name]))(classes[name])   # registered right before its first use
+                    n0 = len(spy.log)
+                    b.cls = classes[name]
+                    b.rearm()
+                    rec._random.script = [0.5]
+                    b.run('live')
+                    ev = [e[0] for e in spy.log[n0:] if e[0] in ('create', 'save', 'abort')]
+                    got = 'none' if not ev else ('save' if ev == ['create', 'save'] else ('abort' if ev == ['create', 'abort'] else 'other'))
+                    ctx.case(('inherited', order, register_late, k))
+                    ctx.count('inherited_operation_decisions')
+                    if got != expect[name]:
+                        ctx.violation('operation shared by inheritance: class %r decided %r, its own policy says %r' % (name, got, expect[name]),
+                                      {'order': order, 'index': k, 'registered_late': register_late})
+                        break
+                b.cls = base_cls
+
+
 def s3_calculator(ctx):
     for ratio, draw in itertools.product([0, 0.3, 1, 1.7, 0.999], [0.0, 0.1, 0.3, 0.9]):
         fake = FakeS3()
@@ -310,6 +356,7 @@ def run(ctx):
     if ctx.shard == 0:
         leakage(ctx)
         same_class_histories(ctx)
+        inherited_operation(ctx)
         s3_calculator(ctx)
     ctx.sample({'row': {'skipped': False, 'rate': 0.3, 'forcing': 'body', 'ignore_forcing': True, 'discard': 'none', 'outcome': 'interrupt', 'draw': 0.3},
                 'expected': 'save (forcing ignored, draw 0.3 <= rate 0.3)'})
